@@ -490,6 +490,8 @@ class RaggedView2:
             idx = int(col_slice)  # unsigned numpy integers cannot be negated or multiplied by a negative step
             if len(self.lengths) and (idx >= np.min(self.lengths) or idx < -np.min(self.lengths)):
                 raise ValueError(f'Column index {idx} is out of bounds for shape {self}')
+            if not len(self.lengths):
+                return self.__class__(self.starts, self.lengths)  # no rows: nothing to offset (idx may not even fit the index dtype)
             if idx >= 0:
                 return self.__class__(self.starts + idx*self.col_step,
                                       np.ones_like(self.lengths))
